@@ -414,6 +414,21 @@ int main(int argc, char **argv) {
                    sc.seed, sc.cls, RefRanlux(sc.seed).out(0), RefRanlux(sc.seed).out(1),
                    RefRanlux(sc.seed).out(2), PMAX + 1));
   }
+  // thorough: a larger contiguous seed range, stream comparison only (no save/restore walk)
+  uint64_t stream_only = 0;
+  if (A.thorough()) {
+    const int64_t hi = A.geti("stream-seeds", 131072);
+    for (int64_t s = nsmall; s < hi; ++s) {
+      if (R.out_of_time()) {
+        R.hit_deadline(fmt("stream-only seeds: stopped at %" PRId64 " of %" PRId64, s, hi));
+        break;
+      }
+      SeedCase sc{s, "medium"};
+      check_seed(sc, R, C, prefixes, false, false);
+      ++stream_only;
+    }
+  }
+  R.set("seeds_stream_only", (double)stream_only);
   // seed 0 is seed 1
   {
     RandomGenerator a(0), b(1);
